@@ -304,15 +304,21 @@ def pyThen (A : DArr) (x : Except IoErr DArr) (k : DArr → Run) : Run :=
   | .ok B => k B
   | .error e => (A, some e)
 
-/-- `try: <stmt> except Exception: <handler>; raise` — the handler runs on the dataset as the failed statement
-left it; afterwards the exception of the statement is re-raised (an exception of the handler takes its place) -/
-def pyTryReraise (A : DArr) (x : Except IoErr DArr) (handler : DArr → Run) : Run :=
+/-- `try: <stmt> except <classes>: <handler>; raise` — when the exception of the statement is one the clause
+catches, the handler runs on the dataset as the failed statement left it and the exception is re-raised (an
+exception of the handler takes its place); any other exception propagates past the handler -/
+def pyTryReraise (A : DArr) (x : Except IoErr DArr) (catches : IoErr → Bool) (handler : DArr → Run) : Run :=
   match x with
   | .ok B => (B, none)
   | .error e =>
-    match handler A with
-    | (B, none) => (B, some e)
-    | (B, some e2) => (B, some e2)
+    if catches e then
+      match handler A with
+      | (B, none) => (B, some e)
+      | (B, some e2) => (B, some e2)
+    else (A, some e)
+
+/-- `except Exception` -/
+def anyException (_ : IoErr) : Bool := true
 
 /-- `try: v = <expr> except E1: raise F1 except E2: raise F2` -/
 def pyCatchMap (x : Except IoErr β) (handlers : List (IoErr × IoErr)) : Except IoErr β :=
